@@ -152,6 +152,49 @@ def generate(repo):
     A(f'/-- `bin`, ends="symmetric": first edge `{ast.unparse(loT)}`, last edge `{ast.unparse(hiT)}` -/')
     A(f"def binEndLo (c0 c1 : Rat) : Rat := {_expr(src, loT, {'wave[0]': 'c0', 'dx[0]': '((c1 - c0) / 2)'})}")
     A(f"def binEndHi (cp cl : Rat) : Rat := {_expr(src, hiT, {'wave[-1]': 'cl', 'dx[-1]': '((cl - cp) / 2)'})}")
+    # ---- bin, ends="inside": trapezoid end edges are the first/last centre; Simpson inserts a quarter point after the first / before the last point
+    def inside_branch(body, tag):
+        iff = [st for st in body if isinstance(st, ast.If) and "ends == 'symmetric'" in ast.unparse(st.test)][0]
+        if not (len(iff.orelse) == 1 and isinstance(iff.orelse[0], ast.If) and ast.unparse(iff.orelse[0].test) == "ends == 'inside'"): raise Refuse(f'bin/{tag}: inside branch')
+        ins = iff.orelse[0]
+        if not (len(ins.orelse) == 1 and isinstance(ins.orelse[0], ast.Raise) and 'ValueError' in ast.unparse(ins.orelse[0])): raise Refuse(f'bin/{tag}: unknown ends is not a ValueError')
+        return ins.body
+    tin = inside_branch(trapz_body, 'trapz')
+    if len(tin) != 1 or ast.unparse(tin[0]) != 'x = np.concatenate([[wave[0]], x, [wave[-1]]])': raise Refuse('bin/trapz: inside edges')
+    A('/-- `bin`, trapz, ends="inside": `x = np.concatenate([[wave[0]], x, [wave[-1]]])` — first / last edge are the first / last centre -/')
+    A('def binInsideEdgeLo (c0 : Rat) : Rat := c0')
+    A('def binInsideEdgeHi (cl : Rat) : Rat := cl')
+    sin_ = inside_branch(simps_if.body, 'simps')
+    if len(sin_) != 2: raise Refuse('bin/simps: inside branch has not two insertions')
+    pos = []
+    for st in sin_:
+        if not (isinstance(st, ast.Assign) and ast.unparse(st.targets[0]) == 'x' and isinstance(st.value, ast.Call) and ast.unparse(st.value.func) == 'np.insert'
+                and len(st.value.args) == 3 and ast.unparse(st.value.args[0]) == 'x'): raise Refuse('bin/simps: inside insertion')
+        pos.append(ast.literal_eval(st.value.args[1]))
+    if pos != [1, -1]: raise Refuse(f'bin/simps: insertion positions {pos}')
+    A(f'/-- `bin`, simps, ends="inside": `{ast.unparse(sin_[0])}` then `{ast.unparse(sin_[1])}` (x0,x1 the first two points; xl, xp the last and the one before it, AFTER the first insertion) -/')
+    A(f"def binInsideLo (x0 x1 : Rat) : Rat := {_expr(src, sin_[0].value.args[2], {'x[0]': 'x0', 'x[1]': 'x1'})}")
+    A(f"def binInsideHi (xl xp : Rat) : Rat := {_expr(src, sin_[1].value.args[2], {'x[-1]': 'xl', 'x[-2]': 'xp'})}")
+    # ---- pad: where the new samples are placed
+    def one(nm):
+        st = [x for x in pad.body if isinstance(x, ast.Assign) and ast.unparse(x.targets[0]) == nm]
+        if len(st) != 2: raise Refuse(f'pad: two assignments to {nm} expected')
+        return st
+    env_p = {'ends[0]': 'e0', 'ends[1]': 'e1', 'minwave': 'minwave', 'maxwave': 'maxwave'}
+    for nm, cnt, tag in (('leftwave', 'nleft', 'Left'), ('rightwave', 'nright', 'Right')):
+        ls, dl = one(nm)
+        if not (isinstance(ls.value, ast.Call) and ast.unparse(ls.value.func) == 'np.linspace' and len(ls.value.args) == 3 and not ls.value.keywords and ast.unparse(ls.value.args[2]) == cnt):
+            raise Refuse(f'pad: {nm} linspace')
+        if not (isinstance(dl.value, ast.Call) and ast.unparse(dl.value.func) == 'np.delete' and len(dl.value.args) == 2 and ast.unparse(dl.value.args[0]) == nm):
+            raise Refuse(f'pad: {nm} delete')
+        A(f'/-- `pad`: `{ast.unparse(ls)}` then `{ast.unparse(dl)}` -/')
+        A(f'def pad{tag}Start (e0 e1 minwave maxwave : Rat) : Rat := {_expr(src, ls.value.args[0], env_p)}')
+        A(f'def pad{tag}Stop (e0 e1 minwave maxwave : Rat) : Rat := {_expr(src, ls.value.args[1], env_p)}')
+        A(f'def pad{tag}Deleted : Int := {int(ast.literal_eval(dl.value.args[1]))}')
+    hs = {ast.unparse(st.targets[0]): ast.unparse(st.value) for st in pad.body if isinstance(st, ast.Assign) and isinstance(st.value, ast.Call) and ast.unparse(st.value.func) == 'np.hstack'}
+    if hs != {'self.wave': 'np.hstack((leftwave, self.wave, rightwave))', 'self.value': 'np.hstack((leftvalue, self.value, rightvalue))'}: raise Refuse(f'pad: hstack {hs}')
+    fills = {ast.unparse(st.targets[0]): ast.unparse(st.value) for st in pad.body if isinstance(st, ast.Assign) and ast.unparse(st.targets[0]) in ('leftvalue', 'rightvalue')}
+    if fills != {'leftvalue': 'values[0] * np.ones(leftwave.shape)', 'rightvalue': 'values[1] * np.ones(rightwave.shape)'}: raise Refuse(f'pad: fill values {fills}')
     def loop_term(body, tag):
         loops = [st for st in body if isinstance(st, ast.For)]
         if len(loops) != 1: raise Refuse(f'bin/{tag}: loop')
